@@ -95,6 +95,16 @@ class _Tiny:
         return check_signal(case, 8, (1, 3), self.cmbs, tuple(case))
 
 
+class _Tiny2:
+    """fs = 16, band (2, 6): 9-tap filters given as 1 cycle or as 0.5 s - a low band edge other than 1 Hz, so that a length
+    given in cycles and the same length given in seconds are different numbers."""
+    def __init__(self, tier):
+        self.cmbs = [(fk, True, b, fe) for fk in ({'n_cycles': 1}, {'n_seconds': .5}) for b in (0, 1) for fe in (None, 'peak', 'trough')]
+
+    def __call__(self, case):
+        return check_signal(case, 16, (2, 6), self.cmbs, ('t2',) + tuple(case))
+
+
 class _Words:
     def __init__(self, tier):
         self.cmbs = combos(tier, [None, {'n_cycles': 2}, {'n_seconds': .5}], [0, 5, 12])
@@ -102,6 +112,21 @@ class _Words:
     def __call__(self, case):
         w = ''.join(case)
         return check_signal(S.word_signal(w), 64, (6, 14), self.cmbs, w)
+
+
+def eval_crop(case):
+    """Filter-sensitive noisy signals cropped at both ends (so that edge half-waves open / close in the zero padding)."""
+    i, c0, c1, fr = case
+    sig = S.sensitive_signal(i)[c0:80 - c1]
+    cmbs = [(fk, True, 0, fe) for fk in ({'n_seconds': .5}, {'n_seconds': .375}, {'n_seconds': .3125}, {'n_cycles': 2}, None)
+            for fe in (None, 'peak')]
+    return check_signal(sig, 64, tuple(fr), cmbs, ('crop', i, c0, c1, tuple(fr)))
+
+
+def eval_short(case):
+    """Signals SHORTER than the filter: only the zero padding makes them analysable (fs=64, 17-tap n_seconds filter)."""
+    cmbs = [({'n_seconds': .25}, True, b, None) for b in (0, 1)]
+    return check_signal(case, 64, (6, 14), cmbs, ('short',) + tuple(case))
 
 
 def spaces(tier, seed):
@@ -112,12 +137,29 @@ def spaces(tier, seed):
         out.append(ProductSpace('tiny{-1,0,1}^10', [[-1, 0, 1]] * 10, tiny,
                                 describe='every signal in {-1,0,1}^10, fs=8, band (1,3), 5/9-tap filter',
                                 bounds={'combos': len(tiny.cmbs)}))
+        from bcmc.explore import ListSpace
+        crops = [[i, c0, c1, list(fr)] for i in range(6) for c0 in range(0, 12, 1) for c1 in (0, 1, 2, 3, 5)
+                 for fr in ((6, 14), (5, 12), (7, 16))]
+        out.append(ListSpace('sensitive-crops', crops, eval_crop,
+                             describe='6 filter-sensitive noisy signals x crop at start (0..11) and end x 3 bands x 5 filter lengths x first_extrema'))
+        out.append(ProductSpace('short{-2,0,2}^9', [[-2, 0, 2]] * 9, eval_short,
+                                describe='every signal in {-2,0,2}^9 with a 17-tap filter (shorter than the filter, padded)'))
+        t2 = _Tiny2(tier)
+        out.append(ProductSpace('tiny2{-1,0,1}^9', [[-1, 0, 1]] * 9, t2, bounds={'combos': len(t2.cmbs)},
+                                describe='every signal in {-1,0,1}^9, fs=16, band (2,6), pad=True, 9-tap filter given in cycles / in seconds'))
         out.append(ProductSpace('words-W(6,5)', S.word_dims(S.alphabet(6), 5), words,
                                 describe='all 5-letter words over 6 letters, fs=64 band (6,14)',
                                 bounds={'combos': len(words.cmbs), 'letters': S.alphabet(6)}))
     else:
         out.append(ProductSpace('tiny{-1,0,1}^12', [[-1, 0, 1]] * 12, tiny, bounds={'combos': len(tiny.cmbs)},
                                 describe='every signal in {-1,0,1}^12, fs=8, band (1,3), 5/9-tap filter'))
+        from bcmc.explore import ListSpace
+        crops = [[i, c0, c1, list(fr)] for i in range(6) for c0 in range(0, 16) for c1 in range(0, 9)
+                 for fr in ((6, 14), (5, 12), (7, 16), (6, 10))]
+        out.append(ListSpace('sensitive-crops', crops, eval_crop))
+        out.append(ProductSpace('short{-2,0,2}^13', [[-2, 0, 2]] * 13, eval_short))
+        t2 = _Tiny2(tier)
+        out.append(ProductSpace('tiny2{-1,0,1}^12', [[-1, 0, 1]] * 12, t2, bounds={'combos': len(t2.cmbs)}))
         out.append(ProductSpace('tiny{-2..2}^8', [[-2, -1, 0, 1, 2]] * 8, tiny, bounds={'combos': len(tiny.cmbs)},
                                 describe='every signal in {-2..2}^8'))
         al = S.alphabet(8, seed, extra=2)
